@@ -33,6 +33,8 @@ PROPS = {
                 preds=["EnvPrecedence", "CalledExact", "UntouchedKeepDefault"]),
     "C17": dict(families=["complete"], lens={"comps", "exits", "ran", "writer"}, rand=("C17", 6000, 150000),
                 preds=["CandidatesExact", "OfferedAccepted"]),
+    "C19": dict(families=["modes", "wrapper"], lens={"panic", "hang", "rest", "exits"}, fuzz=(16000, 800000), level="exploration",
+                preds=["NotStuck", "VariantDecreases (action property)", "ErrImpliesNilRest"]),
     "C20": dict(families=["order", "complete"], lens={"nondet", "err", "derr", "comps", "warn"}, rand=[("C20", 4000, 100000), ("C20c", 2000, 50000)],
                 repeat=6, twice=True, preds=["FixedRule"]),
     "C09": dict(families=["term", "conserve"], lens={"rest", "vals", "called"}, rand=("C09", 6000, 150000),
@@ -65,6 +67,7 @@ MANIFEST_TEXT.update({
     "C11": _mt("DESIGN.md 5 C11", "RequiredEnforced checked by TLC with required options at every level x custom messages x env binding x help by option, alias, abbreviation and help command; real Parse/Dispatch errors (errors.Is(ErrorParsing), custom message), help level and executed functions validated; which of several missing options is named is left open here (C20 fixes the rule)."),
     "C17": _mt("DESIGN.md 5 C17", "GetoptComp.tla mirrors the completion branch (earlier words parsed with the ordinary parser steps in the configured mode, candidates generated at the level reached); TLC checks CandidatesExact (the operational candidate list equals the declarative definition written from the property statement) and OfferedAccepted on every COMP_LINE up to the bound x bash/zsh; the real completion output (bag of candidates, sortedness, exactly one exit with 124, no command function run, nothing on Writer) is validated for every such line and random ones."),
     "C20": _mt("DESIGN.md 5 C20", "In the specification every outcome is a function of (definition, input): the only place where the code consults an unordered table to choose a diagnostic (missing required option) is modelled with an explicit rule (first missing name in the level's sorted name list, FixedRule); TLC validates the exact diagnostic, and every case is executed 7 times in one process (Go re-randomises map iteration per range) and again in a fresh process, with a hash over every observable (values, remaining, full error text, Writer text incl. help, completion output) required to be identical."),
+    "C19": dict(_mt("DESIGN.md 5 C19", "Spec side: totality (NotStuck: the case analysis of the loop has no hole), termination (every step decreases a lexicographic variant, an action property) and ErrImpliesNilRest are checked by TLC on every family. Code side is observational, hence the level: a byte-level driver (raw random bytes as tokens, COMP_LINE words and environment values, 1000-4000 byte tokens, bundles of up to 1200 letters, int ranges at the int64 boundaries with spans <= 10^4) runs Parse / Dispatch / completion under recover and a 3 s watchdog and checks no panic, no hang, nil remaining on error and exactly one exit on the completion path; the cases representable as atoms are additionally validated against the specification."), level="exploration"),
     "C12": _mt("DESIGN.md 5 C12", "EnvPrecedence with the definition-time environment step modelled before any command-line step, checked by TLC for every supported kind x env text class x CLI spelling; real values, Called and CalledAs validated."),
 })
 
@@ -138,6 +141,8 @@ def run_driver(gopt, args, trace):
                     info[k] += int(v)
         if line.startswith("HANG"):
             info["hang"] = line
+        if line.startswith("FUZZFAIL"):
+            info.setdefault("fuzzfail", []).append(line)
     if p.returncode not in (0, 3):
         raise Broken("driver failed (%d): %s\n%s" % (p.returncode, " ".join(args), p.stdout[-3000:]))
     return info
@@ -191,6 +196,7 @@ def drive_and_validate(work, gopt, jobs, twice=False):
                 info["cases"] += inf["cases"]
                 info["nontrivial"] += inf["nontrivial"]
                 info["hang"] = info["hang"] or inf["hang"]
+                info.setdefault("fuzzfail", []).extend(inf.get("fuzzfail", []))
                 for k2, v2 in inf["stats"].items():
                     info["stats"][k2] = info["stats"].get(k2, 0) + v2
                 if os.path.exists(part):
@@ -246,6 +252,10 @@ def check(prop, tier, seed, work, replay, t0):
         transitions += gen
         for k in range(NSHARD):
             jobs[k][1].append(["enum", "-fam", famfile, "-L", str(maxlen), "-shard", str(k), "-of", str(NSHARD), "-idbase", str(fi * 50000000)])
+    if P.get("fuzz"):
+        n = P["fuzz"][0 if tier == "quick" else 1]
+        for k in range(NSHARD):
+            jobs[k][1].append(["fuzz", "-n", str(n // NSHARD + 1), "-seed", str(seed * 1000 + k), "-fail", os.path.join(work, "fuzzfail")])
     rands = P.get("rand") or []
     if rands and not isinstance(rands, list):
         rands = [rands]
@@ -271,6 +281,10 @@ def check(prop, tier, seed, work, replay, t0):
     for r in results:
         if r["info"]["hang"]:
             violations.append(dict(kind="hang", trace=r["trace"], cid=None, fields=["hang"], exp=None, job=r["name"]))
+        for line in r["info"].get("fuzzfail", []):
+            import re as _re
+            m = _re.search(r'kind="([^"]*)" file=(\S+)', line)
+            violations.append(dict(kind="fuzz", trace=r["trace"], cid=None, fields=[m.group(1)], exp=None, job=r["name"], file=m.group(2)))
         for cid in r.get("cross", [])[:50]:
             violations.append(dict(kind="crossproc", trace=r["trace"], cid=cid, fields=["nondet"], exp=None, job=r["name"]))
         for m in r["msgs"]:
@@ -308,7 +322,11 @@ def check(prop, tier, seed, work, replay, t0):
     reported = 0
     nviol = 0
     for v in violations:
-        if v["cid"] is None:
+        if v.get("file"):
+            rec = json.load(open(v["file"]))
+            d, c = rec["def"], rec["case"]
+            desc = describe(d, c)
+        elif v["cid"] is None:
             d = c = None
             desc = {"hang": v["job"]}
         else:
@@ -349,7 +367,7 @@ def check(prop, tier, seed, work, replay, t0):
         "outcome_classes": classes,
         "out_of_lens_differences": notes, "undecidable_cases": unverifiable, "known_finding_cases": sum(knownhits.values()),
     }
-    write_evidence(prop, tier, seed, "model_checking", coverage,
+    write_evidence(prop, tier, seed, P.get("level", "model_checking"), coverage,
                    ["TLC explores the specification exhaustively only up to the stated argv length and alphabets",
                     "numeric conversion is delegated to Go's strconv (conversion oracle table)",
                     "the harness builder/observer faithfully drive and project the public API"],
